@@ -1,3 +1,454 @@
 package main
 
-func runThorough(c *Ctx, spec *propSpec, extra map[string]any) {}
+// Thorough tier (DESIGN §1.5): quick tier plus
+//   (a) build-configuration sweep: the property's rules are re-run under `-tags nodeprecated` (the repository does not
+//       compile for GOARCH=386, so that is not a configuration);
+//   (b) whole-program cross-check: LoadAllSyntax + VTA call graph (the most precise graph in x/tools v0.29.0) must not
+//       know a repo callee at a repo call site that the rule engine's own resolution (E-CALL) misses;
+//   (c) mutation kill matrix: every change under /verif/mutants/<prop>/ and every kept seeded change for the property
+//       is applied IN MEMORY (packages.Config.Overlay; nothing is written to /repo) and the rules must fire; the
+//       behaviour-preserving variants (equiv-*.diff) must stay silent. The matrix goes to the evidence; it never changes
+//       the verdict on the tree.
+
+import (
+	"encoding/json"
+	"fmt"
+	"os"
+	"path/filepath"
+	"sort"
+	"strings"
+	"time"
+
+	"golang.org/x/tools/go/callgraph"
+	"golang.org/x/tools/go/callgraph/cha"
+	"golang.org/x/tools/go/callgraph/vta"
+	"golang.org/x/tools/go/ssa"
+	"golang.org/x/tools/go/ssa/ssautil"
+)
+
+type mutantResult struct {
+	Name    string   `json:"name"`
+	Kind    string   `json:"kind"` // mutant | equivalent
+	Status  string   `json:"status"`
+	FiredBy []string `json:"fired_by,omitempty"`
+}
+
+func runRulesFresh(spec *propSpec, tier string, u1, u2 *Universe) *Ctx {
+	c := newCtx(spec.ID, tier)
+	c.U1, c.U2 = u1, u2
+	func() {
+		defer func() {
+			if r := recover(); r != nil {
+				c.rule(spec.ID+".checker-panic", "the checker must not crash", 0)
+				c.add("panic", "", Undecided, fmt.Sprint(r))
+			}
+		}()
+		for _, r := range spec.Rules {
+			r(c)
+		}
+	}()
+	// floors
+	for id, st := range c.Rules {
+		if st.Instances < st.Floor {
+			c.curRule = id
+			c.add("instance-count", "", BelowFloor, "below floor")
+		}
+	}
+	return c
+}
+
+func failing(c *Ctx) []*Obligation {
+	known, _ := loadKnownFindings()
+	var out []*Obligation
+	for _, o := range c.Obs {
+		if o.Verdict == Discharged {
+			continue
+		}
+		isKnown := false
+		for _, k := range known {
+			if k.Kind == "finding" && k.Rule == o.Rule && k.Construct == o.Construct {
+				isKnown = true
+			}
+		}
+		if !isKnown {
+			out = append(out, o)
+		}
+	}
+	return out
+}
+
+func runThorough(c *Ctx, spec *propSpec, extra map[string]any) {
+	t0 := time.Now()
+	lap := func(what string) {
+		if os.Getenv("VERIF_TIMING") != "" {
+			fmt.Fprintf(os.Stderr, "  [timing] %s %.1fs\n", what, time.Since(t0).Seconds())
+		}
+		t0 = time.Now()
+	}
+	// (a) configuration sweep
+	// GOARCH=386 is not a configuration of this repository: pkg/crypto/aead does not compile there (gcmMaxDataSize
+	// overflows int), so the only other configuration is the `nodeprecated` build tag.
+	configs := []BuildConfig{{Name: "nodeprecated", Tags: "nodeprecated"}}
+	done := []string{"default"}
+	for _, bc := range configs {
+		var u1, u2 *Universe
+		var err error
+		if spec.NeedU1 {
+			if u1, err = loadUniverseOverlay("U1", bc, false, nil); err != nil {
+				c.rule(spec.ID+".config-sweep", "every build configuration loads and satisfies the property's rules", 0)
+				c.add(bc.Name, "", Undecided, err.Error())
+				continue
+			}
+		}
+		if spec.NeedU2 {
+			u2 = c.U2 // the sidecar has no build-tagged files; reuse
+		}
+		cc := runRulesFresh(spec, "thorough", u1, u2)
+		c.rule(spec.ID+".config-sweep", "every build configuration loads and satisfies the property's rules", 0)
+		f := failing(cc)
+		if len(f) == 0 {
+			c.ok(bc.Name, "", fmt.Sprintf("%d obligations discharged under %s", len(cc.Obs), bc.Name))
+		} else {
+			for _, o := range f {
+				c.add(bc.Name+"/"+o.Key(), o.Pos, o.Verdict, "under "+bc.Name+": "+o.Fact)
+			}
+		}
+		done = append(done, bc.Name)
+	}
+	extra["build_configs"] = done
+	lap("config sweep")
+	// (b) VTA cross-check
+	if spec.NeedU1 && spec.UsesCallGraph {
+		vtaCrossCheck(c, spec)
+	}
+	lap("vta cross-check")
+	// (c) kill matrix
+	res := killMatrix(spec)
+	lap("kill matrix")
+	killed, total, silentOK, equiv := 0, 0, 0, 0
+	for _, r := range res {
+		if r.Kind == "mutant" && r.Status != "n/a" {
+			total++
+			if r.Status == "killed" {
+				killed++
+			}
+		}
+		if r.Kind == "equivalent" && r.Status != "n/a" {
+			equiv++
+			if r.Status == "silent" {
+				silentOK++
+			}
+		}
+	}
+	extra["kill_matrix"] = res
+	extra["mutants_total"] = total
+	extra["mutants_killed"] = killed
+	extra["equivalent_variants"] = equiv
+	extra["equivalent_silent"] = silentOK
+	fmt.Printf("%s thorough: %d/%d mutants killed, %d/%d behaviour-preserving variants silent, configs %v\n", spec.ID, killed, total, silentOK, equiv, done)
+	for _, r := range res {
+		if (r.Kind == "mutant" && r.Status == "survived") || (r.Kind == "equivalent" && r.Status == "fired") {
+			fmt.Printf("  note: %s %s %s %v\n", r.Kind, r.Name, r.Status, r.FiredBy)
+		}
+	}
+}
+
+// ---------------------------------------------------------------------------------------------
+// (b) VTA cross-check
+
+var vtaCache *callgraph.Graph
+var vtaUniverse *Universe
+
+func vtaCrossCheck(c *Ctx, spec *propSpec) {
+	c.rule(spec.ID+".vta-crosscheck", "whole-program VTA call graph (LoadAllSyntax) knows no repo callee at a repo call site that the rule engine's own call resolution misses", 0)
+	if vtaCache == nil {
+		u, err := loadUniverseOverlay("U1", BuildConfig{Name: "default"}, true, nil)
+		if err != nil {
+			c.add("load-all-syntax", "", Undecided, err.Error())
+			return
+		}
+		all := ssautil.AllFunctions(u.Prog)
+		vtaCache = vta.CallGraph(all, cha.CallGraph(u.Prog))
+		vtaUniverse = u
+	}
+	u := vtaUniverse
+	cg := newCallGraph(u)
+	isRepo := map[*ssa.Function]bool{}
+	for _, f := range u.RepoFuncs {
+		isRepo[f] = true
+	}
+	missing := 0
+	sites := 0
+	for _, f := range u.RepoFuncs {
+		n := vtaCache.Nodes[f]
+		if n == nil {
+			continue
+		}
+		bySite := map[ssa.CallInstruction][]*ssa.Function{}
+		for _, e := range n.Out {
+			if e.Site == nil {
+				continue
+			}
+			callee := orig(e.Callee.Func)
+			if callee == nil || !isRepo[callee] {
+				continue
+			}
+			bySite[e.Site] = append(bySite[e.Site], callee)
+		}
+		for site, callees := range bySite {
+			sites++
+			mine := cg.calleesAt(site, cgEnv{})
+			cc := site.Common()
+			if cc != nil && !cc.IsInvoke() && cc.StaticCallee() == nil {
+				// dynamic call: compare with the context-insensitive resolution
+				for t := range cg.funcValues(cc.Value, nil, 0) {
+					mine[t] = cgEnv{}
+				}
+				// parameters are bound per call site by the engine; union over all bindings = all callers' arguments
+				if p, ok := cc.Value.(*ssa.Parameter); ok {
+					for _, e := range cg.callersOf(f) {
+						args := callArgs(callOf(e.Site))
+						for k, q := range f.Params {
+							if q == p && k < len(args) {
+								for t := range cg.funcValues(args[k], nil, 0) {
+									mine[t] = cgEnv{}
+								}
+							}
+						}
+					}
+					continue // binding-sensitive; VTA is coarser here by construction
+				}
+			}
+			for _, callee := range callees {
+				if _, ok := mine[callee]; !ok {
+					// generic instantiation wrappers and synthetic thunks resolve to their origin
+					if callee.Synthetic != "" {
+						continue
+					}
+					missing++
+					if missing <= 5 {
+						c.add(trimPkgDirs(shortName(f))+"→"+trimPkgDirs(shortName(callee)), u.ipos(site), Undecided, "VTA resolves this call site to a repo function the engine's call resolution does not reach: "+instrText(site))
+					}
+				}
+			}
+		}
+	}
+	if missing == 0 {
+		c.ok("U1", "", fmt.Sprintf("%d repo call sites with repo callees in the VTA graph, all covered by the engine's resolution", sites))
+	}
+}
+
+// ---------------------------------------------------------------------------------------------
+// (c) kill matrix
+
+type patchFile struct {
+	Path  string
+	Hunks []hunk
+}
+
+type hunk struct {
+	OldStart int
+	Old, New []string // old lines (context+removed), new lines (context+added)
+}
+
+func parseUnifiedDiff(text string) []patchFile {
+	var out []patchFile
+	var cur *patchFile
+	var h *hunk
+	flush := func() {
+		if h != nil && cur != nil {
+			cur.Hunks = append(cur.Hunks, *h)
+			h = nil
+		}
+	}
+	for _, l := range strings.Split(text, "\n") {
+		switch {
+		case strings.HasPrefix(l, "+++ "):
+			flush()
+			p := strings.TrimPrefix(l, "+++ ")
+			p = strings.TrimPrefix(p, "b/")
+			if i := strings.IndexByte(p, '\t'); i >= 0 {
+				p = p[:i]
+			}
+			out = append(out, patchFile{Path: p})
+			cur = &out[len(out)-1]
+		case strings.HasPrefix(l, "--- "), strings.HasPrefix(l, "diff "), strings.HasPrefix(l, "index "), strings.HasPrefix(l, "new file"), strings.HasPrefix(l, "deleted file"):
+			flush()
+		case strings.HasPrefix(l, "@@"):
+			flush()
+			h = &hunk{}
+			fmt.Sscanf(l, "@@ -%d", &h.OldStart)
+		case h != nil && strings.HasPrefix(l, "+"):
+			h.New = append(h.New, l[1:])
+		case h != nil && strings.HasPrefix(l, "-"):
+			h.Old = append(h.Old, l[1:])
+		case h != nil && strings.HasPrefix(l, " "):
+			h.Old = append(h.Old, l[1:])
+			h.New = append(h.New, l[1:])
+		case h != nil && l == "":
+			// blank context line with stripped trailing space
+			h.Old = append(h.Old, "")
+			h.New = append(h.New, "")
+		case strings.HasPrefix(l, "\\"):
+		}
+	}
+	flush()
+	return out
+}
+
+// applyHunks applies the hunks to the file content by locating each hunk's old lines (near its recorded position).
+func applyHunks(content string, hunks []hunk) (string, bool) {
+	lines := strings.Split(content, "\n")
+	offset := 0
+	for _, h := range hunks {
+		old := h.Old
+		// trailing blank artefacts
+		for len(old) > 0 && old[len(old)-1] == "" && len(h.New) > 0 && h.New[len(h.New)-1] == "" {
+			old = old[:len(old)-1]
+			h.New = h.New[:len(h.New)-1]
+		}
+		want := h.OldStart - 1 + offset
+		pos := -1
+		match := func(at int) bool {
+			if at < 0 || at+len(old) > len(lines) {
+				return false
+			}
+			for k := range old {
+				if lines[at+k] != old[k] {
+					return false
+				}
+			}
+			return true
+		}
+		for d := 0; d < len(lines) && pos < 0; d++ {
+			if match(want + d) {
+				pos = want + d
+			} else if match(want - d) {
+				pos = want - d
+			}
+		}
+		if pos < 0 {
+			return "", false
+		}
+		nl := append([]string{}, lines[:pos]...)
+		nl = append(nl, h.New...)
+		nl = append(nl, lines[pos+len(old):]...)
+		offset += len(h.New) - len(old)
+		lines = nl
+	}
+	return strings.Join(lines, "\n"), true
+}
+
+// overlayFromPatch builds an Overlay map (absolute path under repoRoot -> new content) for a unified diff.
+func overlayFromPatch(diffPath string) (map[string][]byte, bool) {
+	b, err := os.ReadFile(diffPath)
+	if err != nil {
+		return nil, false
+	}
+	ov := map[string][]byte{}
+	for _, pf := range parseUnifiedDiff(string(b)) {
+		if strings.HasSuffix(pf.Path, "_test.go") || !strings.HasSuffix(pf.Path, ".go") {
+			continue
+		}
+		abs := filepath.Join(repoRoot, pf.Path)
+		src, err := os.ReadFile(abs)
+		if err != nil {
+			return nil, false
+		}
+		out, ok := applyHunks(string(src), pf.Hunks)
+		if !ok {
+			return nil, false
+		}
+		ov[abs] = []byte(out)
+	}
+	return ov, len(ov) > 0
+}
+
+func killMatrix(spec *propSpec) []mutantResult {
+	root := verifRoot()
+	type cand struct{ name, path, kind string }
+	var cands []cand
+	if ents, err := os.ReadDir(filepath.Join(root, "mutants", spec.ID)); err == nil {
+		for _, e := range ents {
+			if strings.HasSuffix(e.Name(), ".diff") {
+				kind := "mutant"
+				if strings.HasPrefix(e.Name(), "equiv-") {
+					kind = "equivalent"
+				}
+				cands = append(cands, cand{"mutants/" + spec.ID + "/" + e.Name(), filepath.Join(root, "mutants", spec.ID, e.Name()), kind})
+			}
+		}
+	}
+	if ents, err := os.ReadDir(filepath.Join(root, "seeded")); err == nil {
+		for _, e := range ents {
+			mp := filepath.Join(root, "seeded", e.Name(), "meta.json")
+			b, err := os.ReadFile(mp)
+			if err != nil {
+				continue
+			}
+			var m struct {
+				Property string `json:"property"`
+			}
+			if json.Unmarshal(b, &m) != nil || m.Property != spec.ID {
+				continue
+			}
+			cands = append(cands, cand{"seeded/" + e.Name(), filepath.Join(root, "seeded", e.Name(), "patch.diff"), "mutant"})
+		}
+	}
+	sort.Slice(cands, func(i, j int) bool { return cands[i].name < cands[j].name })
+	var out []mutantResult
+	for _, cd := range cands {
+		r := mutantResult{Name: cd.name, Kind: cd.kind}
+		ov, ok := overlayFromPatch(cd.path)
+		if !ok {
+			r.Status = "n/a"
+			out = append(out, r)
+			continue
+		}
+		var u1, u2 *Universe
+		var err error
+		touchesServer := false
+		for p := range ov {
+			if strings.Contains(p, "/server/go/") {
+				touchesServer = true
+			}
+		}
+		if spec.NeedU1 {
+			u1, err = loadUniverseOverlay("U1", BuildConfig{Name: "default"}, false, ov)
+		}
+		if err == nil && spec.NeedU2 {
+			if touchesServer {
+				u2, err = loadUniverseOverlay("U2", BuildConfig{Name: "default"}, false, ov)
+			} else {
+				u2, err = getUniverse("U2", BuildConfig{Name: "default"}, false)
+			}
+		}
+		if err != nil {
+			r.Status = "n/a" // does not type-check: not a valid mutant
+			out = append(out, r)
+			continue
+		}
+		cc := runRulesFresh(spec, "thorough", u1, u2)
+		f := failing(cc)
+		rules := map[string]bool{}
+		for _, o := range f {
+			rules[o.Rule] = true
+		}
+		for k := range rules {
+			r.FiredBy = append(r.FiredBy, k)
+		}
+		sort.Strings(r.FiredBy)
+		switch {
+		case cd.kind == "mutant" && len(f) > 0:
+			r.Status = "killed"
+		case cd.kind == "mutant":
+			r.Status = "survived"
+		case len(f) == 0:
+			r.Status = "silent"
+		default:
+			r.Status = "fired"
+		}
+		out = append(out, r)
+	}
+	return out
+}
